@@ -108,7 +108,9 @@ Definition op_ok (r : rest) (o : op) : bool :=
          three store files (repair on branch fix-c10b).  Stage 4: "strictly increasing ids that are
          spikes" is no longer a regime guard here (code 3) but part of clause 30 (select_c17_b): ids
          read back from the store file that violate it are a verdict about phylib, not about the harness *)
-      | Some _ => 12 <=? w
+      (* w is computed by the harness as max(max_n_channels or k, k), k = n_closest_channels of params.py
+         (class default 12; datasets with k = 1 / 2 since the stage-4 mutation triage): at least one column *)
+      | Some _ => 1 <=? w
       end
   | _ => true
   end.
